@@ -188,6 +188,9 @@ pub struct Src {
     pub released: bool,
     pub removed_dispatch: u64,
     pub fd_released: Option<super::zoo::FdX>,
+    /// the Generic of a removed source, kept alive by its user (it may be unwrapped or dropped much later)
+    pub kept_generic: Option<calloop::generic::Generic<super::zoo::FdX>>,
+    pub fd_keepalive: Vec<super::zoo::FdX>,
     pub fd_released_peer: Option<OwnedFd>,
 }
 
@@ -243,6 +246,8 @@ impl Src {
             released: false,
             removed_dispatch: 0,
             fd_released: None,
+            kept_generic: None,
+            fd_keepalive: vec![],
             fd_released_peer: None,
         }
     }
